@@ -7,7 +7,7 @@ CONSTANTS WScaled,     \* abandonment window, scaled down (60 in the code)
           Lag,         \* distance latest - final kept by the environment
           Modes,       \* subset of BOOLEAN: values of cfg.fin
           CLs,         \* consistency levels of the plain message
-          MineBack, ArmKinds, RemineStatus, MidScanHeads, MaxHeads, MaxMine, MaxPush, MaxReorg, MaxRemine, MaxDrop, MaxFail, MaxArm, MaxReq
+          MineBack, ArmKinds, RemineStatus, MidScanHeads, HeldIntake, MaxHeads, MaxMine, MaxPush, MaxReorg, MaxRemine, MaxDrop, MaxFail, MaxArm, MaxReq
 
 VARIABLE cnt
 
@@ -39,6 +39,11 @@ Quiet    == lq = Nil /\ hs = Nil /\ rs = Nil /\ Len(hq) = 0
 MidScan  == lq = Nil /\ rs = Nil /\ (IF hs = Nil THEN FALSE ELSE hs.fwd = Nil)
 MidReobs == lq = Nil /\ hs = Nil /\ Len(hq) = 0 /\ (IF rs = Nil THEN FALSE ELSE rs.st = "rcpt")
 
+\* With HeldIntake the answer to the log's block lookup is held back: heads are published, polled and scanned
+\* between LogReceived and PendingStored.
+MidIntake == HeldIntake /\ rs = Nil /\ hs = Nil /\ (IF lq = Nil THEN FALSE ELSE lq.st = "time")
+IntakeOK  == lq = Nil \/ (HeldIntake /\ (IF lq = Nil THEN FALSE ELSE lq.st = "time"))
+
 Heights == {n \in 1..latest : n + MineBack >= latest}
 
 ChainChange ==
@@ -55,13 +60,14 @@ EnvNext ==
     \/ Quiet /\ \E t \in TxUniverse, n \in Heights : E_Mine(t[1], n, 1, t[2]) /\ Bump("mine")
     \/ MidScan /\ (ChainChange \/ (MidScanHeads /\ HeadChange))
     \/ MidReobs /\ (HeadChange \/ ChainChange)
+    \/ MidIntake /\ (HeadChange \/ ChainChange)
 
 WatcherNext ==
     \/ Quiet /\ \E tx \in DOMAIN rcpt : \E i \in 1..Len(txs[tx]) : PushLog(tx, i, IsMsg(txs[tx][i])) /\ Bump("push")
-    \/ lq # Nil /\ L_BlockTime(lq.e.blk) /\ UNCHANGED cnt
+    \/ lq # Nil /\ (HeldIntake => hs = Nil /\ Len(hq) = 0) /\ L_BlockTime(lq.e.blk) /\ UNCHANGED cnt
     \/ L_Insert /\ UNCHANGED cnt
-    \/ rs = Nil /\ lq = Nil /\ (HeadFor(Tag) > pl \/ Fails("poll")) /\ Len(hq) < 2 /\ B_Poll(Tag) /\ UNCHANGED cnt
-    \/ rs = Nil /\ lq = Nil /\ Len(hq) > 0 /\ H_Head(Head(hq)) /\ UNCHANGED cnt
+    \/ rs = Nil /\ IntakeOK /\ (HeadFor(Tag) > pl \/ Fails("poll")) /\ Len(hq) < 2 /\ B_Poll(Tag) /\ UNCHANGED cnt
+    \/ rs = Nil /\ IntakeOK /\ Len(hq) > 0 /\ H_Head(Head(hq)) /\ UNCHANGED cnt
     \/ \E e \in pending : H_Receipt(e) /\ UNCHANGED cnt
     \/ hs # Nil /\ hs.fwd # Nil /\ H_Forward(hs.fwd.e) /\ UNCHANGED cnt
     \/ \E A \in SUBSET Abandonable : H_Done(A) /\ UNCHANGED cnt
